@@ -58,7 +58,7 @@ use crate::array::DataChunk;
 use crate::catalog::{RootCatalog, RootCatalogRef, TableRefId};
 use crate::planner::{Expr, ExprAnalysis, Optimizer, RecExpr, TypeSchemaAnalysis};
 use crate::storage::Storage;
-use crate::types::{ColumnIndex, DataType};
+use crate::types::{ColumnIndex, DataType, DataValue};
 use crate::utils::timed::{FutureExt as _, Span as TimeSpan};
 
 mod analyze;
@@ -221,6 +221,13 @@ impl<S: Storage> Builder<S> {
                 let columns = (self.node(list).as_list().iter())
                     .map(|id| self.node(*id).as_column())
                     .collect_vec();
+                // A contradictory key range (e.g. `a > 10 and a < 4`) is folded to `false` by
+                // the optimizer. It is not a range any more, but it still filters everything.
+                let filters_all = matches!(
+                    self.node(filter),
+                    Constant(DataValue::Bool(false)) | Constant(DataValue::Null)
+                );
+
                 // analyze range filter
                 let filter = {
                     use std::ops::Bound;
@@ -241,7 +248,9 @@ impl<S: Storage> Builder<S> {
                     }
                 };
 
-                if let Some(subscriber) = self.views.get(&table_id) {
+                if filters_all {
+                    futures::stream::empty().boxed()
+                } else if let Some(subscriber) = self.views.get(&table_id) {
                     // scan a view
                     assert!(
                         filter.is_none(),
